@@ -86,7 +86,14 @@ def run_case(prog, style: str, rseed: int, bindings, specs=None, use_reference=F
     out["emission"], out["problems"] = em, problems
     # --- model-free oracle
     if specs is None:
-        specs = [L.eval_numpy(prog, b) for b in bindings]
+        specs = []
+        for b in bindings:
+            try:
+                specs.append(L.eval_numpy(prog, b))
+            except L.PartialOp:
+                specs.append(None)
+    live = [(b, sp) for b, sp in zip(bindings, specs) if sp is not None]
+    bindings, specs = [b for b, _ in live], [sp for _, sp in live]
     names = [o.name for o in model.graph.output]
     # (the ORDER of inputs / outputs is C03's business; C01 needs the requested names to be there)
     if sorted(names) != sorted(R.outputs):
@@ -141,6 +148,100 @@ def run_case(prog, style: str, rseed: int, bindings, specs=None, use_reference=F
             else:
                 out["notes"].append("onnx.reference could not run the model: " + got2[:80])
     return out
+
+
+def run_history(prog, style: str, rseed: int, bindings, n_builds: int = 3):
+    """Several builds over the SAME Python objects: the program is written once, then `spox.build` is
+    called repeatedly with other requests — more outputs placed first (shifts the per-operator name
+    counters), a subset, other closed values only; input names permuted among same-typed arguments or
+    renamed, dicts in another order — and every returned model is run and compared with the dataflow
+    of exactly what that build requested.  Returns (key, what) of the first failure or None."""
+    import warnings
+
+    import spox
+
+    hr = random.Random(rseed ^ 0x5EED5)
+    try:
+        with warnings.catch_warnings():
+            warnings.simplefilter("ignore")
+            R = L.realise(prog, random.Random(rseed), style, twins=bool(prog.get("special")))
+    except L.HarnessError:
+        return None
+    except Exception as e:  # noqa: BLE001
+        return (classify_raise(prog, "construct", e), f"constructor raised {type(e).__name__}: {str(e)[:160]}")
+    dep = L.formal_deps(prog)
+    margs = L.main_args(prog)
+    closed = sorted(r for r in R.vars if not dep[r[0]] and not prog["nodes"][r[0]]["ty"][r[1]][2]
+                    and L.concrete(prog["nodes"][r[0]]["ty"][r[1]]) and prog["nodes"][r[0]]["op"] != "arg")
+    requested = [tuple(r) for r in prog["outputs"]]
+    for step in range(n_builds):
+        kind = "same" if step == 0 else hr.choice(["superset", "superset", "subset", "other", "same"])
+        extras = hr.sample(closed, min(len(closed), hr.randint(1, 3))) if closed else []
+        if kind == "same" or not extras:
+            refs = list(requested)
+        elif kind == "superset":
+            refs = extras + list(requested)
+        elif kind == "subset":
+            refs = [hr.choice(requested)]
+        else:
+            refs = extras
+        out_names = [f"r{j}" if hr.random() < 0.5 else f"out{j}" for j in range(len(refs))]
+        if step and hr.random() < 0.5:
+            order = list(range(len(refs)))
+            hr.shuffle(order)
+            refs, out_names = [refs[j] for j in order], [out_names[j] for j in order]
+        # input names: identity / permuted among arguments of the same type / renamed
+        name_of = {a: f"in{a}" for a in margs}
+        scheme = "identity" if step == 0 else hr.choice(["permute", "permute", "rename", "identity"])
+        if scheme == "rename":
+            name_of = {a: f"p{len(margs) - j}" for j, a in enumerate(margs)}
+        elif scheme == "permute":
+            groups: dict = {}
+            for a in margs:
+                groups.setdefault(json.dumps(prog["nodes"][a]["ty"][0]), []).append(a)
+            for g in groups.values():
+                sh = list(g)
+                hr.shuffle(sh)
+                for a, b_ in zip(g, sh):
+                    name_of[a] = f"in{b_}"
+        ikeys = list(margs)
+        hr.shuffle(ikeys)
+        inputs = {name_of[a]: R.vars[(a, 0)] for a in ikeys}
+        outputs = {nm: R.vars[r] for nm, r in zip(out_names, refs)}
+        tag = f"build #{step} of a history over the same objects ({kind}, inputs {scheme})"
+        try:
+            with warnings.catch_warnings():
+                warnings.simplefilter("ignore")
+                model = spox.build(inputs, outputs)
+        except Exception as e:  # noqa: BLE001
+            return (classify_raise(prog, "build", e), f"{tag}: spox.build raised {type(e).__name__}: {str(e)[:160]}")
+        sub = dict(prog, outputs=[list(r) for r in refs])
+        names = [o.name for o in model.graph.output]
+        if sorted(names) != sorted(out_names):
+            return ("wrong-outputs", f"{tag}: model outputs {names}, requested {out_names}")
+        st, sess = L.ort_session(model)
+        for bi, b in enumerate(bindings):
+            try:
+                want, ws = L.eval_numpy(sub, b)
+            except L.PartialOp:
+                continue
+            if ws["wild"]:
+                continue
+            feeds = {name_of[a]: v for a, v in b.items()}
+            if st == "ok":
+                s2, got = L.ort_run(sess, feeds)
+            else:
+                s2, got = "load-err", sess
+            if s2 != "ok":
+                s3, got2 = L.run_reference(model, feeds)
+                if s3 == "ok" and not any(differs(prog, g, want[out_names.index(nm)]) for g, nm in zip(got2, names)):
+                    continue
+                return ("runtime-fails", f"{tag}: onnxruntime: {str(got)[:160]}")
+            for g, nm in zip(got, names):
+                d = differs(prog, g, want[out_names.index(nm)])
+                if d:
+                    return ("wrong-value", f"{tag}: output {nm} on binding {bi}: onnxruntime vs dataflow: {d[:160]}")
+    return None
 
 
 def case_doc(prog, style, rseed, bindings):
@@ -205,7 +306,7 @@ def run(ck: core.Check):
         ck.leanchecker(["SpoxModel.Props.C01"])
 
     rng = ck.rng
-    n_random = ck.pick(800, 8000)
+    n_random = ck.pick(650, 8000)
     n_styles = ck.pick(3, 4)
     n_bind = 3
     skel_uses = ck.pick(3, 6)
@@ -223,6 +324,8 @@ def run(ck: core.Check):
     n_skel = len(programs)
     for _ in range(ck.pick(60, 600)):  # scalar-attribute operators with unusual values, twins constructed first
         programs.append((L.gen_attr_program(random.Random(rng.getrandbits(48))), "attr"))
+    for prog, tag in L.partial_programs():  # bodies that must not be evaluated for some binding
+        programs.append((prog, "partial:" + tag))
     for prog, tag in L.deep_programs(random.Random(rng.getrandbits(48)), ck.pick(1, 3)):
         programs.append((prog, "deep:" + tag))
     for i in range(n_random):
@@ -248,8 +351,14 @@ def run(ck: core.Check):
         bad = L.check_wellformed(prog) + L.typecheck(prog)
         if bad:
             raise RuntimeError(f"generator produced an ill-formed program: {bad[:2]}")
-        bindings = [L.random_binding(prog, rng) for _ in range(n_bind)]
-        specs = [L.eval_numpy(prog, b) for b in bindings]
+        bindings = [L.random_binding(prog, rng, bi) for bi in range(n_bind)]
+        specs = []
+        for b in bindings:
+            try:
+                specs.append(L.eval_numpy(prog, b))
+            except L.PartialOp:  # the dataflow has no value for this binding: nothing to compare
+                specs.append(None)
+                stats["bindings_without_a_value"] += 1
         d = L.depth_of(prog)
         hist_depth[d] += 1
         for n in prog["nodes"]:
@@ -281,6 +390,42 @@ def run(ck: core.Check):
                 notes[nt.split(":")[0]] += 1
             nontrivial = d >= 1 or any(len(n["ty"]) > 1 or None in n["ins"] for n in prog["nodes"])
             ck.count((skey, style) if nontrivial else None)
+            if not res["fail"] and style == styles[0] and (pi % 4 == 0 or origin == "attr") and not origin.startswith("deep"):
+                try:
+                    hf = run_history(prog, style, rseed, bindings)
+                except Exception as e:  # noqa: BLE001
+                    hf = None
+                    stats["harness_errors"] += 1
+                    if stats["harness_errors"] <= 3:
+                        ck.broken("correspondence", "C01 harness could not process a history", f"{origin}: {type(e).__name__}: {e}")
+                stats["histories"] += 1
+                if hf:
+                    doc = case_doc(prog, style, rseed, bindings)
+                    doc["history"] = True
+                    hkey = hf[0]
+
+                    def still_h(p_, bs_):
+                        try:
+                            if L.check_wellformed(p_) or L.typecheck(p_):
+                                return False
+                            r_ = run_history(p_, style, rseed, bs_)
+                        except Exception:  # noqa: BLE001
+                            return False
+                        return r_ is not None and r_[0] == hkey
+
+                    if shrink_budget[0] > 0 and not any(f["key"] == hf[0] for f in ck.failures):
+                        shrink_budget[0] -= 1
+                        try:
+                            p2, b2 = L.shrink(prog, bindings, still_h, ck.pick(40, 150))
+                            r2 = run_history(p2, style, rseed, b2)
+                            if r2 and r2[0] == hf[0]:
+                                doc = case_doc(p2, style, rseed, b2)
+                                doc["history"] = True
+                                hf = r2
+                        except Exception:  # noqa: BLE001
+                            pass
+                    ck.failure(hf[0], f"{hf[1]} [{origin}, style {style}]", doc)
+                    stats["oracle_failures"] += 1
             if res["fail"]:
                 key, what = res["fail"]
                 p2, b2 = prog, bindings
@@ -433,6 +578,7 @@ def run(ck: core.Check):
                 "emitted_graphs": stats["emitted_graphs"],
                 "unrequested_constructions": stats["unrequested_constructions"],
                 "deep_programs_built_and_run": stats["deep_programs_built_and_run"],
+                "multi_build_histories_over_the_same_objects": stats["histories"],
                 "values_created_inside_callbacks": stats["created_inside_callbacks"],
                 "created_in_callback_emitted_further_out": stats["created_in_callback_emitted_further_out"],
                 "created_outside_emitted_inside_body": stats["created_outside_emitted_inside_body"],
@@ -463,6 +609,13 @@ def replay(ck: core.Check, doc) -> bool:
     case = doc["case"]
     prog = case["prog"]
     bindings = [L.binding_from_json(prog, b) for b in case["bindings"]]
+    if case.get("history") or doc.get("history"):
+        hf = run_history(prog, case["style"], case["rseed"], bindings)
+        if hf:
+            print(f"{hf[0]}: {hf[1]}")
+            return True
+        print("every build of the history agrees with the dataflow evaluation")
+        return False
     res = run_case(prog, case["style"], case["rseed"], bindings, use_reference=True)
     if res["fail"]:
         print(f"{res['fail'][0]}: {res['fail'][1]}")
